@@ -227,7 +227,7 @@ class DynDiGraph(nx.DiGraph):
         for t in self.temporal_snapshots_ids():
             if self.has_node(n, t):
                 snaps.append(t)
-        return t
+        return snaps
 
     def interactions(self, nbunch=None, t=None):
         """Return the list of interaction present in a given snapshot.
